@@ -281,3 +281,85 @@ C01.manifest = {
 import importlib  # noqa: E402
 for _f in sorted(glob.glob(os.path.join(os.path.dirname(os.path.abspath(__file__)), "p_*.py"))):
     importlib.import_module(os.path.basename(_f)[:-3])
+
+
+# ------------------------------------------------------------------------------------------
+# C03: traversal lists vs edge store (oracle independent of the Coq model)
+# ------------------------------------------------------------------------------------------
+class C03Prop(HistProp):
+    def oracle(self, c, o):
+        """after every call: successors_vec / predecessors_vec (hook snapshot) must equal the
+        adjacency rebuilt from get_all_nodes()/get_all_edges() alone, weight = min of the pair's edges"""
+        msgs = []
+        directed, multi = c["spec"][0], c["spec"][1]
+        nodes = edges = None
+        step = 0
+        for kind, rows, _ in o:
+            if kind == 1:
+                step += 1
+            elif kind == 2:
+                nodes = [r[0] for r in rows]
+            elif kind == 1003:
+                edges = rows
+            elif kind in (16, 19) and nodes is not None and edges is not None:
+                idx = {x: i for i, x in enumerate(nodes)}
+                exp = {}
+                for e in edges:
+                    u, v, wf, w = e[0], e[1], e[2], e[3]
+                    wt = None if wf == 0 else w
+                    pairs = []
+                    if kind == 16:
+                        pairs.append((idx[u], idx[v]))
+                        if not directed and u != v:
+                            pairs.append((idx[v], idx[u]))
+                    elif directed:
+                        pairs.append((idx[v], idx[u]))
+                    for p in pairs:
+                        if p in exp:
+                            a = exp[p]
+                            exp[p] = None if (a is None or wt is None) else min(a, wt)
+                        else:
+                            exp[p] = wt
+                got = {}
+                dup = False
+                for r in rows:
+                    if r[1] == -1:
+                        continue
+                    p = (r[0], r[1])
+                    if p in got:
+                        dup = True
+                    got[p] = None if r[2] == 0 else r[3]
+                if dup:
+                    msgs.append("after call %d: duplicate traversal entry in %s" % (
+                        step, "successors_vec" if kind == 16 else "predecessors_vec"))
+                if got != exp:
+                    bad = sorted(set(got.items()) ^ set(exp.items()), key=str)[:4]
+                    msgs.append("after call %d: %s disagrees with the edge store (index pair, weight): %s" % (
+                        step, "successors_vec" if kind == 16 else "predecessors_vec", bad))
+                if len([r for r in rows if r[1] == -1]) != len(nodes):
+                    msgs.append("after call %d: traversal list has %d rows for %d nodes" % (
+                        step, len([r for r in rows if r[1] == -1]), len(nodes)))
+        return msgs[:2]
+
+
+C03 = register(C03Prop(
+    "C03", "c03", 1500, 20000,
+    "histories of 2-10 mutation calls biased to collisions (60% of added edges re-hit an existing pair, in either "
+    "orientation, with a smaller / larger / equal weight), uniformly weighted {1,2,3,5} (3/4 of cases) or uniformly "
+    "unweighted, all 96 GraphSpecs cycled, names whose sort order differs from insertion order; after EVERY call "
+    "the hook snapshot of successors_vec / predecessors_vec is compared (a) with the Coq model and (b) by an "
+    "independent oracle with the adjacency rebuilt from get_all_nodes()/get_all_edges() alone (neighbour iff edge "
+    "stored, weight = minimum of the pair's stored edges); non-trivial = >=2 kinds of call and one success"))
+C03.manifest = {
+    "text": "Proved for every reachable state (induction over arbitrary histories, all 96 specs, generic name type): the "
+            "coherence invariant WF of all twelve private fields (Proofs/WFDefs.v) is established by new and preserved by "
+            "add_node/add_edge/batch adds; under WF each row of successors_vec/predecessors_vec lists exactly the nodes "
+            "joined by a stored edge (read off get_all_edges alone), each once, with weight adjw = the running minimum of "
+            "the stored group (multi-edge) or the weight of the single stored edge; for uniformly real weights adjw is the "
+            "true minimum, for uniformly unweighted groups it is NaN. The model is tied to the code per call by the hook "
+            "snapshot of both traversal lists; an independent oracle rebuilds the adjacency from the public edge list.",
+    "note": "Axioms: none. Trusted: Coq kernel; harness + hook verif_snapshot; the Dijkstra/centrality consumers read "
+            "only these lists (checked by C04-C06's own correspondence, not re-proved here). Defect F1 (KeepFirst/KeepLast "
+            "kept the minimum instead of the stored weight) was repaired by a fix: commit; the model is the repaired code.",
+    "technique": "Coq proof: data-structure invariant by induction over histories + correspondence via hook snapshot",
+}
